@@ -77,7 +77,8 @@ func validateBlock(evidencePool EvidencePool, store Store, state LatestBlockStat
 		return fmt.Errorf("nil LastCommit")
 	}
 	if block.Height() == state.InitialHeight {
-		if len(block.LastCommit().Signatures) != 0 {
+		// the first block carries the canonical empty commit: its fields are not covered by the header hash
+		if lc := block.LastCommit(); len(lc.Signatures) != 0 || lc.Height != 0 || lc.Round != 0 || !lc.BlockID.IsZero() {
 			return ErrLastCommitSig
 		}
 	} else {
